@@ -8,7 +8,7 @@
     * `parseLimits`     — `LinuxProcLimits::from` (process_state.rs:164-196)
     * `guardFlag`       — `check_for_guard_pages` (processor.rs:787-835) incl. `memory_range()`
     * `implicitAccess`  — op_analysis.rs:540-548 (`rsp.wrapping_sub(8)`)
-    * `winFrameSize`, `fpo`, `searchStart` — walker.rs:937-942, 983-1046, 781-791
+    * `winFrameSize`, `fpo`, `searchStart` — walker.rs:943-948, 985-1048, 783-787
     * `readerKeeps`, `jsonEnd`, `textEnd`, `frameOffsets`, `unloadedOffset` — the printers' own
       arithmetic (process_state.rs:796-823, 1050-1110; unwind/lib.rs:469-482; processor.rs:1180)
     * `argRecovery` read head — arg_recovery.rs:100-120
@@ -241,7 +241,7 @@ def implicitAccess (op : StackOp) (rsp : Nat) : Nat :=
   | .push | .call => wrappingSub64 rsp Consts.push_adjust
   | .pop | .ret => rsp
 
-/-! ## K4 — STACK WIN sizes and the FPO walk (walker.rs:937-1046) -/
+/-! ## K4 — STACK WIN sizes and the FPO walk (walker.rs:943-1048) -/
 
 structure WinInfo where
   localSize : Nat
